@@ -381,7 +381,10 @@ class SDRZFluxes(Obligation):
     def build(self, mk):
         s = self.m.SteadyDetonationReactionZone(D=mk('D'), rho_0=mk('rho_0'), gamma=mk('gamma'))
         sol = s.run_tvec(H.arr([mk('t')]))
-        out = H.first(H.fields(sol))
+        f = H.first(H.fields(sol))
+        # only the fields of the flux claims: for a single particle time t > 1 run_tvec reads its relative position from an
+        # np.empty_like array before writing it (xvec_rel[it1] with tvec[it1] > 1): uninitialised memory, not a value
+        out = {k: f[k] for k in ('density', 'velocity', 'pressure')}
         out.update(_D=mk('D'), _rho0=mk('rho_0'))
         return out
 
@@ -446,6 +449,7 @@ class EHEPFront(Obligation):
         self.functions = [self.m.EscapeOfHEProducts.__init__, self.m.EscapeOfHEProducts._run, self.m.EscapeOfHEProducts.p_rho]
         self.bounds = 'D, rho_0, up, xtilde, xmax, tmax, x, t symbolic (constructor-admitted); gamma = 3 as the problem requires'
         self.max_paths = 80
+        self.skip_validation = True     # the concrete build evaluates on both sides of the front, not at the symbolic x
 
     def build(self, mk):
         if Mode.symbolic(mk):
